@@ -309,11 +309,54 @@ def _tlc(cfg, recs, prefixes, timeout, workers=8):
         shutil.rmtree(d, ignore_errors=True)
 
 
+def _chunks(recs, budget=40000):
+    """split the records so that one TLC run parses at most ~budget events"""
+    out, cur, n = [], [], 0
+    for r in recs:
+        k = len(r["events"]) + 50
+        if cur and n + k > budget:
+            out.append(cur)
+            cur, n = [], 0
+        cur.append(r)
+        n += k
+    if cur:
+        out.append(cur)
+    return out
+
+
+def _job(args):
+    cfg, recs, prefix = args
+    res = _tlc(cfg, recs, (prefix,), 2400, workers=4)
+    return res.lines, res.distinct, res.generated
+
+
+class _Stats:
+    def __init__(self):
+        self.distinct = self.generated = 0
+
+
+def _fanout(cfg, recs, prefix):
+    import multiprocessing as mp
+    jobs = [(cfg, c, prefix) for c in _chunks(recs)]
+    st = _Stats()
+    lines = []
+    if len(jobs) <= 1:
+        results = [_job(j) for j in jobs]
+    else:
+        with mp.Pool(4) as pool:
+            results = pool.map(_job, jobs, chunksize=1)
+    for ls, d, g in results:
+        lines += ls
+        st.distinct += d
+        st.generated += g
+    return lines, st
+
+
 def replay(recs, timeout=1500):
     """-> {tid: verdict}  verdict: dict(reached, len, ok flags, exact)"""
-    res = _tlc("Trace_VF2.cfg", recs, ("AT",), timeout)
+    lines, res = _fanout("Trace_VF2.cfg", recs, "AT")
     v = {}
-    for _, o in res.lines:
+    for _, o in lines:
         t = v.setdefault(o["tid"], {"reached": 0, "len": o["len"], "book": True, "piso": True, "shape": True, "order": True, "bfs": True, "exact": "skipped",
                                     "done": False})
         t["reached"] = max(t["reached"], o["l"])
@@ -326,14 +369,14 @@ def replay(recs, timeout=1500):
 
 
 def run_mode(recs, timeout=1500):
-    res = _tlc("Run_VF2.cfg", recs, ("FOUND",), timeout)
-    return {o["tid"]: o for _, o in res.lines}, res
+    lines, res = _fanout("Run_VF2.cfg", [dict(r, events=[]) for r in recs], "FOUND")
+    return {o["tid"]: o for _, o in lines}, res
 
 
 def collect(tier, rep, seed):
     """records real runs, validates them in both modes, reports through rep; returns a coverage dict"""
     rnd = random.Random(seed * 7919 + 5)
-    n_small, nmax, n_corpus = (400, 6, 6) if tier == "quick" else (6000, 7, 60)
+    n_small, nmax, n_corpus = (400, 6, 6) if tier == "quick" else (3000, 7, 60)
     fams = ["smg3", "two", "twop", "ethene", "star4lp", "tbp", "crg3", "prismr", "scrg2", "ethener", "sn2"]
     if tier != "quick":
         fams += ["star5", "lp2", "oct", "star5r", "cuber", "prismsr", "nopar"]
